@@ -1076,8 +1076,40 @@ func c03KeyCases(c *Ctx, n int) {
 	}
 }
 
+// field-level comparison of Location.key (incl. the hex/join string) with the model
+func c03LocKeyCases(c *Ctx, n int) {
+	r := c.R
+	ids := []uint64{1, 2, 9, 10, 15, 16, 17, 255, 256, 4095, 4096, 1 << 32, 1<<63 - 1, 1 << 63, math.MaxUint64, 0xabcdef, 0xdeadbeefcafe}
+	nums := []int64{0, 1, -1, 9, 10, 15, 16, -16, 255, 256, -255, 1 << 40, math.MaxInt64, math.MinInt64, math.MinInt64 + 1, 0xabc, -0xabc}
+	for i := 0; i < n; i++ {
+		p := &profile.Profile{}
+		l := &profile.Location{ID: 1, Address: PickU(r, []uint64{0, 1, 0x1000, 0x400100, 1 << 63, math.MaxUint64}), IsFolded: r.P(1, 3)}
+		if r.P(2, 3) {
+			m := &profile.Mapping{ID: PickU(r, ids), Start: PickU(r, []uint64{0, 0x1000, 0x400000, 1 << 63, math.MaxUint64 - 5})}
+			m.Limit = m.Start + 0x1000
+			l.Mapping = m
+			p.Mapping = []*profile.Mapping{m}
+		}
+		used := map[uint64]*profile.Function{}
+		for k := r.Intn(4); k > 0; k-- {
+			id := PickU(r, ids)
+			f := used[id]
+			if f == nil {
+				f = &profile.Function{ID: id, Name: "f"}
+				used[id] = f
+				p.Function = append(p.Function, f)
+			}
+			l.Line = append(l.Line, profile.Line{Function: f, Line: PickI(r, nums), Column: PickI(r, nums)})
+		}
+		p.Location = []*profile.Location{l}
+		a, mid, lines, folded := profile.VerifLocationKey(l)
+		c.Case("lockey", L(S("lkey"), DumpProfile(p)), L(S("key"), L(ZU(a), ZU(mid), S(lines), Bool(folded))), len(l.Line) > 0, "op:lkey")
+	}
+}
+
 func runC03(c *Ctx) {
 	c03KeyCases(c, c.Budget(100, 5000))
+	c03LocKeyCases(c, c.Budget(100, 5000))
 	c03Regressions(c)
 	c03HeaderCases(c)
 	c03AttrPairs(c)
